@@ -34,7 +34,7 @@ def subvalues(d, out=None, depth=0):
 
 
 def reach(t: T, fam: gen.Family):
-    """leaf kinds, enum names, dataclass names reachable from t"""
+    """leaf kinds, enum names, class names (dataclass / NamedTuple / TypedDict) reachable from t"""
     leaves, enums, dcs = set(), set(), []
 
     def go(x: T):
@@ -43,7 +43,7 @@ def reach(t: T, fam: gen.Family):
                 leaves.add(n.name)
             elif n.kind == "enum":
                 enums.add(n.name)
-            elif n.kind == "data" and n.name not in dcs:
+            elif n.kind in ("data", "nt", "td") and n.name not in dcs:
                 dcs.append(n.name)
                 for f in fam.get(n.name).fields:
                     go(f.ty)
@@ -226,14 +226,85 @@ OK_FUN = """Definition ok (c: tcase) : bool :=
 """
 
 
+def truncations(w, limit=10):
+    """every variant of a wire value in which ONE nested list is cut short (the outer one included)"""
+    out = []
+
+    def go(x, rebuild):
+        if len(out) >= limit:
+            return
+        if isinstance(x, list):
+            for n in range(len(x)):
+                out.append(rebuild(x[:n]))
+            for i, y in enumerate(x):
+                go(y, lambda z, i=i, x=x: rebuild(x[:i] + [z] + x[i + 1:]))
+        elif isinstance(x, dict):
+            for k2, y in x.items():
+                go(y, lambda z, k2=k2, x=x: rebuild({**x, k2: z}))
+    go(w, lambda z: z)
+    return out[:limit]
+
+
+def indexed_schema(sg: gen.SchemaGen, rng) -> T:
+    """positions decoded by indexing: (nested) NamedTuples with trailing defaults (scalar and fixed-tuple defaults),
+    fixed tuples, TypedDicts around them -- all inside the Coq grammar"""
+    def item(d):
+        c = rng.random()
+        if c < 0.3 or d <= 0:
+            return T(rng.choice(["int", "str", "bool", "float"]))
+        if c < 0.65:
+            return T("tuplefix", [T(rng.choice(["int", "str", "bool"])) for _ in range(rng.randrange(1, 4))])
+        if c < 0.85:
+            return nt(d - 1)
+        if c < 0.92:
+            return td(d - 1)
+        return T("opt", [item(d - 1)])
+
+    def nt(d):
+        spec = gen.ClassSpec("nt", sg.fresh("N"))
+        for k2 in range(rng.randrange(1, 5)):
+            spec.fields.append(gen.FieldSpec(f"a{k2}", item(d)))
+        for f in reversed(spec.fields):
+            dv = sg.simple_default(f.ty) if rng.random() < 0.75 else None
+            if dv is None or (isinstance(dv[0], str) and dv[0].startswith("factory:")):
+                break
+            f.default, f.default_src = dv
+        sg.fam.classes.append(spec)
+        return T("nt", name=spec.name)
+
+    def td(d):
+        spec = gen.ClassSpec("td", sg.fresh("TD"), total=rng.random() < 0.6)
+        for k2 in range(rng.randrange(1, 4)):
+            fs = gen.FieldSpec(f"k{k2}", item(d))
+            if rng.random() < 0.3:
+                fs.optional = spec.total
+            spec.fields.append(fs)
+        sg.fam.classes.append(spec)
+        return T("td", name=spec.name)
+    c = rng.random()
+    return nt(2) if c < 0.75 else (td(2) if c < 0.9 else T("tuplefix", [item(2) for _ in range(rng.randrange(1, 4))]))
+
+
 def make_cases(rng, n_schemas: int, per_schema: int, depth: int = 3, foreign: int = 3):
     """yields python-side cases: dict(fam, t, ns, kind, value/input, outcome)"""
     from mashumaro.codecs.basic import BasicDecoder, BasicEncoder
     cases = []
-    for si in range(n_schemas):
-        sg = gen.SchemaGen(rng, gen.GenOpts(depth=depth, coq_only=True, named=False, mixin=rng.random() < 0.4))
+    n_indexed = max(5, n_schemas // 3)
+    for si in range(n_schemas + n_indexed):
+        indexed = si >= n_schemas
+        sg = gen.SchemaGen(rng, gen.GenOpts(depth=depth, coq_only=True, named=True, mixin=rng.random() < 0.4))
         sg.tag = f"s{si}_"
-        t = sg.dataclass_type(depth - 1) if rng.random() < 0.35 else sg.gen_type()
+        c = rng.random()
+        if indexed:
+            t = indexed_schema(sg, rng)
+        elif c < 0.3:
+            t = sg.dataclass_type(depth - 1)
+        elif c < 0.42:
+            t = sg.namedtuple_type(depth - 1)
+        elif c < 0.52:
+            t = sg.typeddict_type(depth - 1)
+        else:
+            t = sg.gen_type()
         if t.kind == "none":
             t = gen.T("opt", [gen.T("int")])
         fam = sg.fam
@@ -244,7 +315,7 @@ def make_cases(rng, n_schemas: int, per_schema: int, depth: int = 3, foreign: in
         vg = gen.ValueGen(rng, fam)
         # a mixin dataclass at the top: the same model must also describe to_dict / from_dict
         mixin_top = t.kind == "data" and fam.get(t.name).mixin
-        for _ in range(per_schema):
+        for vi in range(1 if indexed else per_schema):
             v = vg.value(t)
             if mixin_top:
                 try:
@@ -257,7 +328,13 @@ def make_cases(rng, n_schemas: int, per_schema: int, depth: int = 3, foreign: in
                 cases.append(dict(fam=fam, t=t, ns=ns, kind="enc", value=v, out=("exc", type(e).__name__)))
                 continue
             cases.append(dict(fam=fam, t=t, ns=ns, kind="enc", value=v, out=("ok", w)))
-            inputs = [w] + [corrupt(w, rng) for _ in range(foreign)]
+            if indexed:
+                # exactly one nested sequence too short: trailing defaults of THAT NamedTuple or an error, nothing else
+                inputs = [w] + truncations(w)
+            else:
+                inputs = [w] + [corrupt(w, rng) for _ in range(foreign)]
+                if vi == 0 and t.kind in ("nt", "td", "tuplefix"):
+                    inputs += [rng.choice(["", "1", "12", "abc"]), rng.choice([None, 7, {}, {"k0": 1}, []])]
             for d in inputs:
                 d0 = copy.deepcopy(d)
                 try:
@@ -290,7 +367,7 @@ def emit(cases, shard=150):
             if id(fam) not in envs:
                 name = f"E_{len(envs)}"
                 envs[id(fam)] = name
-                env_defs.append(f"Definition {name} : senv := {coq_senv(fam, [x.name for x in fam.classes if x.kind == 'data'])}.")
+                env_defs.append(f"Definition {name} : senv := {coq_senv(fam, [x.name for x in fam.classes if x.kind in ('data', 'nt', 'td')])}.")
             en = envs[id(fam)]
             if c["kind"] == "enc":
                 tb.add_value(c["value"], fam, ns)
